@@ -62,18 +62,20 @@ fn world(mk: bool, mck: bool) -> std::result::Result<World, String> {
 /// would interleave with the protocol lines
 fn quiet<T>(f: impl FnOnce() -> T) -> T {
     use std::io::Write;
+    // fd 1 is restored even if `f` panics (the panic is caught further up)
+    struct Restore(i32);
+    impl Drop for Restore {
+        fn drop(&mut self) { let _ = std::io::stdout().flush(); unsafe { libc::dup2(self.0, 1); libc::close(self.0); } }
+    }
     let _ = std::io::stdout().flush();
-    unsafe {
+    let _r = unsafe {
         let saved = libc::dup(1);
         let null = libc::open(b"/dev/null\0".as_ptr() as *const libc::c_char, libc::O_WRONLY);
         libc::dup2(null, 1);
-        let r = f();
-        let _ = std::io::stdout().flush();
-        libc::dup2(saved, 1);
-        libc::close(saved);
         libc::close(null);
-        r
-    }
+        Restore(saved)
+    };
+    f()
 }
 
 fn call(accounts: &'static [AccountInfo<'static>], data: Vec<u8>) -> std::result::Result<(), ProgramError> {
